@@ -29,18 +29,20 @@ type copyFact struct {
 }
 
 type rwWalker struct {
-	fn      string
-	unit    string
-	env     map[string]string
-	guards  []string
-	reads   map[string]map[string]bool
-	units   []string
-	copies  []copyFact
-	tracked func(string) bool
-	litType func(string) (string, bool) // composite literal types whose keys are recorded
-	killed  map[string]int              // locals re-assigned at scope depth k: their alias is void in every scope shallower than k
-	depth   int
-	reader  bool
+	fn       string
+	unit     string
+	env      map[string]string
+	guards   []string
+	reads    map[string]map[string]bool
+	units    []string
+	copies   []copyFact
+	tracked  func(string) bool
+	litType  func(string) (string, bool) // composite literal types whose keys are recorded
+	killed   map[string]int              // locals re-assigned at scope depth k: their alias is void in every scope shallower than k
+	depth    int
+	returns  map[string]bool // functions whose return statements are recorded as copies to `return`
+	reader   bool
+	rootMode bool // writer, conversion.go: visitObjectNode / visitOneofNode (sources are `node.…`)
 }
 
 func trimPkg(s string) string {
@@ -582,6 +584,13 @@ func (r *rwWalker) stmt(s ast.Stmt) {
 		r.stmt(x.Body)
 		r.restore(saved)
 	case *ast.ReturnStmt:
+		if r.returns[r.fn] {
+			texts := make([]string, len(x.Results))
+			for i, e := range x.Results {
+				texts[i] = r.text(e)
+			}
+			r.copies = append(r.copies, copyFact{r.unit, "return", "", strings.Join(texts, ","), append([]string(nil), r.guards...)})
+		}
 		for _, e := range x.Results {
 			r.expr(e)
 		}
@@ -599,10 +608,16 @@ func newWalker(reader bool) *rwWalker {
 	r := &rwWalker{reads: map[string]map[string]bool{}, reader: reader}
 	if reader {
 		r.tracked = func(c string) bool {
-			return strings.HasPrefix(c, "ext.") || strings.HasPrefix(c, "GetExtension(")
+			for _, p := range []string{"ext.", "GetExtension(", "opts.", "options.", "psmExt."} {
+				if strings.HasPrefix(c, p) {
+					return true
+				}
+			}
+			return false
 		}
 		local := map[string]bool{"ArrayField": true, "MapField": true, "ObjectProperty": true, "AnyField": true,
-			"EnumField": true, "OneofField": true, "ObjectField": true, "ScalarSchema": true, "EnumSchema": true, "EnumOption": true}
+			"EnumField": true, "OneofField": true, "ObjectField": true, "ScalarSchema": true, "EnumSchema": true, "EnumOption": true,
+			"ObjectSchema": true, "OneofSchema": true}
 		r.litType = func(t string) (string, bool) {
 			t = strings.TrimPrefix(t, "*")
 			if strings.HasPrefix(t, "schema_j5pb.") {
@@ -612,6 +627,9 @@ func newWalker(reader bool) *rwWalker {
 		}
 	} else {
 		r.tracked = func(c string) bool {
+			if r.rootMode {
+				return strings.HasPrefix(c, "node.") || strings.HasPrefix(c, "schema.")
+			}
 			return strings.HasPrefix(c, "st.") || strings.HasPrefix(c, "node.Schema.") || strings.HasPrefix(c, "GetExtension(")
 		}
 		r.litType = func(t string) (string, bool) {
@@ -673,7 +691,7 @@ func extractRules(w *strings.Builder) error {
 	}
 	wr := newWalker(false)
 	descSeed := map[string]string{"desc": "FieldDescriptorProto", "fieldDesc": "FieldDescriptorProto", "itemDesc": "FieldDescriptorProto"}
-	for _, name := range []string{"buildProperty", "buildField"} {
+	for _, name := range []string{"buildProperty", "buildField", "checkIntegerBound"} {
 		fd := funcDecl(wf, name)
 		if fd == nil || fd.Body == nil {
 			return fmt.Errorf("fields.go: func %s not found", name)
@@ -681,12 +699,31 @@ func extractRules(w *strings.Builder) error {
 		wr.function(fd, descSeed)
 	}
 
+	_, cf, err := parseFile("internal/j5s/j5convert/conversion.go")
+	if err != nil {
+		return err
+	}
+	wroot := newWalker(false)
+	wroot.rootMode = true
+	for _, d := range cf.Decls {
+		if fd, ok := d.(*ast.FuncDecl); ok && fd.Body != nil {
+			if n := recvName(fd); n == "conversionVisitor.visitObjectNode" || n == "conversionVisitor.visitOneofNode" {
+				wroot.function(fd, nil)
+			}
+		}
+	}
+	if len(wroot.units) != 2 {
+		return fmt.Errorf("conversion.go: visitObjectNode / visitOneofNode not found")
+	}
+
 	_, rf, err := parseFile("lib/j5schema/schema_from_proto.go")
 	if err != nil {
 		return err
 	}
 	rr := newWalker(true)
-	want := []string{"getProtoFieldExtensions", "Package.messageProperties", "Package.buildSchemaProperty", "Package.buildSchema", "buildScalarType",
+	rr.returns = map[string]bool{"isOneofWrapper": true}
+	want := []string{"isOneofWrapper", "Package.buildOneofSchema", "Package.buildObjectSchema", "findPSMOptions",
+		"getProtoFieldExtensions", "Package.messageProperties", "Package.buildSchemaProperty", "Package.buildSchema", "buildScalarType",
 		"wktSchema", "buildMessageFieldSchema", "buildEnumFieldSchema", "buildFromStringProto"}
 	found := map[string]*ast.FuncDecl{}
 	for _, d := range rf.Decls {
@@ -754,6 +791,8 @@ func extractRules(w *strings.Builder) error {
 	fmt.Fprintf(w, "def writerUnits : List String := %s\n", leanStrList(wr.units))
 	emitReads(w, "writerReads", wr)
 	emitCopies(w, "writerCopies", wr)
+	emitReads(w, "rootWriterReads", wroot)
+	emitCopies(w, "rootWriterCopies", wroot)
 	fmt.Fprintf(w, "def readerUnits : List String := %s\n", leanStrList(rr.units))
 	emitReads(w, "readerReads", rr)
 	emitCopies(w, "readerCopies", rr)
